@@ -56,7 +56,9 @@ PolyNew == /\ Ev.e = "PolyNew" /\ Ev.tid \in live /\ owner[Ev.proc] \in {Ev.tid,
 \* ... and every operation that writes it reads that processor: it must still be alive and still be its creator's (C16: no use after free over thread create / exit histories)
 PolyUse == /\ Ev.e = "PolyUse" /\ Ev.tid \in live /\ pproc[Ev.poly] = Ev.proc /\ owner[Ev.proc] \in {pcre[Ev.poly], Shared}
            /\ Keep(<<memo, nhit, live, owner, lock, nuse, pcre, pproc>>)
-ThNext == l <= Len(Tr) /\ l' = l + 1 /\ (ThStart \/ ThEnd \/ ThJoined \/ PCtor \/ PShared \/ PDtor \/ PUse \/ LAcq \/ LRel \/ Plan \/ ThEval \/ PolyNew \/ PolyUse)
+\* the client thread of the storm phase: it encrypted, decrypted and encoded alongside the evaluators, and every one of its own round trips came out right
+Client == /\ Ev.e = "Client" /\ Ev.tid \in live /\ Ev.wrong = 0 /\ Ev.ops >= 1 /\ Keep(<<memo, nhit, live, owner, lock, nuse, pcre, pproc>>)
+ThNext == l <= Len(Tr) /\ l' = l + 1 /\ (Client \/ ThStart \/ ThEnd \/ ThJoined \/ PCtor \/ PShared \/ PDtor \/ PUse \/ LAcq \/ LRel \/ Plan \/ ThEval \/ PolyNew \/ PolyUse)
 ThSpec == ThInit /\ [][ThNext]_tvars
 Exercised == (l = Len(Tr) + 1) => nhit >= 1 /\ nuse >= 1
 =============================================================================
